@@ -396,7 +396,7 @@ def campaign_walk(ck: Check, n: int, label: str = "", cases: list | None = None,
     if cases is None:
         kws = only or KEYWORDS
         for kw in kws:  # stratified: every keyword is the innermost one of at least one case in every run
-            todo += [focus_case(rng, kw) for _ in range(1 if n <= 60 else 4)]
+            todo += [focus_case(rng, kw) for _ in range(2 if n <= 200 else 4)]
         while len(todo) < n + len(CORPUS):
             todo.append(focus_case(rng, rng.choice(kws)) if only else gen_case(rng))
     for case in todo:
